@@ -348,6 +348,23 @@ func memStage(r *rep.Report, e rep.Env) {
 						if err == nil {
 							calls := wf.CallsCopy()
 							r.Violate("", "the storage layer reported a failure but the operation reported success", rep.J{"check": "fault", "state": kind, "history": hist[:oi+1], "failed_call": calls[len(calls)-1], "failed_call_number": c})
+							break
+						}
+						// the client retries the operation (the fault is gone): once the retry is
+						// acknowledged, it must be durable like any acknowledged operation
+						wf.FailAt = 0
+						r.Count("fault_retries", 1)
+						if err2 := apply(locf, o); err2 == nil {
+							perLive, _ := observe(locf)
+							if ms, ok := wf.Inner.(*core.MemStorage); ok {
+								locr, errr := drv.NewLoc("D", kind, store.MemFrom(store.CopyState(ms.State(nil))))
+								if errr == nil {
+									perRel, _ := observe(locr)
+									if d := diff(perLive, perRel); len(d) > 0 {
+										r.Violate("", "an operation that failed on a storage fault was retried and acknowledged, but the reloaded location differs from the live one (the retry never reached storage)", rep.J{"check": "fault-retry", "state": kind, "history": hist[:oi+1], "failed_call_number": c, "differences": d})
+									}
+								}
+							}
 						}
 						break
 					}
